@@ -1,7 +1,8 @@
 ---- MODULE ClientQueue ----
 \* Request queue of hio.core.http.clienting.Client against scripted servers (property C19).
 \* Each queued request r has a server script: "ok", "delay" (answered some service rounds later), "created" (a final
-\* answer that carries a Location field without being a redirect, 201: nothing is followed), "redir-rel" / "redir-abs"
+\* answer that carries a Location field without being a redirect, 201: nothing is followed), "notmod" (304 with a
+\* Content-Length field: complete without a body, the next answer is the next request's), "redir-rel" / "redir-abs"
 \* (302 to the same server, relative / absolute Location), "redir-2" (two hops), "redir-other" (302 to another server),
 \* "redir-down" (302 from https to http: refused when the client is secure), "close-before" / "close-during" (the server
 \* closes the connection instead of / in the middle of answering).  One action per step of the exchange.
